@@ -157,6 +157,10 @@ func runC02(c *runCfg) error {
 		id++
 	}
 	if c.replay != "" {
+		if b, err := os.ReadFile(c.replay); err == nil && bytes.Contains(b, []byte("(tlsobs ")) {
+			runC02TLS(c, tlsOnly(c))
+			return nil
+		}
 		f, err := os.Open(c.replay)
 		if err != nil {
 			return err
@@ -210,6 +214,7 @@ func runC02(c *runCfg) error {
 		emitSession(c, cs)
 		id++
 	}
+	runC02TLS(c, nil)
 	// COPY-in that the client aborts, the handler handing the reader's error back: the reason the client
 	// gave travels into an ErrorResponse
 	for _, reason := range [][]byte{[]byte("client gave up"), {}, []byte("with \"quotes\" and \xc3\xa9"), bytes.Repeat([]byte("r"), 300)} {
@@ -274,4 +279,27 @@ func runC02(c *runCfg) error {
 		}
 	}
 	return nil
+}
+
+// the same inside TLS: what the client reads from the secure stream after the one-byte 'S' must be the
+// well-formed messages of the plaintext equivalent (and nothing is written underneath the TLS session)
+func runC02TLS(c *runCfg, only map[string]bool) {
+	tid := 7000000
+	for k := 0; k < 6; k++ {
+		rerr := &errT{kind: "code", a: []byte("22012"), inner: &errT{kind: "base", a: []byte("division by zero")}}
+		st := stmtT{id: 1, cols: textCols(2), prog: []opT{{kind: "row", vals: []valT{tv("a"), {kind: "nil"}}}, {kind: "row", vals: []valT{tv("b"), {kind: "unenc"}}}, {kind: "complete", tag: []byte("SELECT 1")}}, ret: "err", rerr: rerr}
+		cfg := simpleCfg(1024)
+		cfg.tls = true
+		cfg.parse = append(cfg.parse, parseEntry{query: []byte("failing"), stmts: []stmtT{st}})
+		if k%2 == 1 {
+			cfg.auth = "pw"
+			cfg.authPW = []byte("secret")
+		}
+		msgs := [][]byte{startupMsg("user", "u", "database", "d")}
+		if cfg.auth != "none" {
+			msgs = append(msgs, mPassword([]byte("secret")))
+		}
+		msgs = append(msgs, mQuery([]byte("select 1")), mQuery([]byte("failing")), mParse(nil, []byte("failing"), 0), mBind(nil, nil, nil, nil, nil), mDescribe('P', nil), mExecute(nil, 0), mSync(), mQuery([]byte("nothing")), mTerminate())
+		emitTLS(c, only, &tid, "tls_session", cfg, sslRequest(), nil, msgs, "")
+	}
 }
